@@ -28,6 +28,8 @@ type fakeAPI struct {
 	calls         []string
 	gets          [][]Entry
 	subs          [][]Entry
+	schemas       *schemaSet // when set: every submitted object is checked against the CRD status schema
+	schemaViol    []string
 }
 
 var errInjected = errors.New("injected failure")
@@ -61,13 +63,16 @@ type fakeStatusWriter struct {
 func (f *fakeAPI) Status() client.SubResourceWriter { return fakeStatusWriter{f: f} }
 
 func (w fakeStatusWriter) Update(ctx context.Context, obj client.Object, _ ...client.SubResourceUpdateOption) error {
-	return w.f.Update(ctx, obj)
+	return w.f.statusUpdate(ctx, obj)
 }
 
-// Update implements status.K8sUpdater.
-func (f *fakeAPI) Update(_ context.Context, obj client.Object, _ ...client.SubResourceUpdateOption) error {
+// statusUpdate is the status subresource update (status.K8sUpdater is satisfied by Status()).
+func (f *fakeAPI) statusUpdate(_ context.Context, obj client.Object) error {
 	sub := f.k.getStatus(obj)
 	f.subs = append(f.subs, sub)
+	if f.schemas != nil {
+		f.schemaViol = append(f.schemaViol, f.schemas.validateSubmitted(f.k.variant, f.k.version, obj)...)
+	}
 	switch f.cur.kind {
 	case 'u':
 		f.calls = append(f.calls, "u0")
